@@ -367,8 +367,8 @@ func acceptMedian(run *sim.Run, infos []ref.PriceInfo, got, want uint64, md ref.
 		return ""
 	}
 	if md.FullTieDiffPrice {
-		set, complete := ref.AdmissibleMedians(infos, 5040)
-		if set[got] {
+		adm, complete := ref.MedianAdmissible(infos, got, 720)
+		if adm {
 			run.Count(where+":tie-order-alternative-accepted", 1)
 			return ""
 		}
@@ -376,21 +376,15 @@ func acceptMedian(run *sim.Run, infos []ref.PriceInfo, got, want uint64, md ref.
 			run.Count(where+":tie-order-undecided", 1)
 			return ""
 		}
-		return fmt.Sprintf("got %d, reference %d, and no order of the fully tied entries yields it (admissible %v)", got, want, keys(set))
+		return fmt.Sprintf("got %d, reference %d, and no order of the fully tied entries yields it", got, want)
 	}
 	return fmt.Sprintf("got %d, reference %d", got, want)
 }
 
-func keys(m map[uint64]bool) []uint64 {
-	var out []uint64
-	for k := range m {
-		out = append(out, k)
-	}
-	sort.Slice(out, func(i, j int) bool { return out[i] < out[j] })
-	return out
-}
-
 func checkPure(run *sim.Run, env *pureEnv, idx int, distinct bool) {
+	if run.Violations() >= 20 {
+		return // enough refutations recorded; do not spend time on more
+	}
 	rng := sim.NewRng(uint64(run.Seed)).Derive(fmt.Sprintf("c06-pure-%d", idx))
 	v := genPure(rng)
 	caseData := func() any {
@@ -499,6 +493,9 @@ func checkPure(run *sim.Run, env *pureEnv, idx int, distinct bool) {
 // Directed vectors for MedianWeightedPrice itself (exported, called by the median): small integer
 // weights so that the cumulative weight hits exactly half of the total very often.
 func checkWeighted(run *sim.Run, idx int) {
+	if run.Violations() >= 20 {
+		return
+	}
 	rng := sim.NewRng(uint64(run.Seed)).Derive(fmt.Sprintf("c06-wm-%d", idx))
 	n := rng.Range(1, 8)
 	type wp struct {
@@ -579,32 +576,32 @@ func shuffled[T any](r *sim.Rng, xs []T) []T {
 }
 
 type chain struct {
-	run      *sim.Run
-	w, w2    *sim.World
-	rng      *sim.Rng
-	caseID   int
-	params   feedstypes.Params
-	qRat     *big.Rat
-	valIdx   map[string]int
-	prices   []map[string]*vp
-	active   []bool
-	bonded   []bool
-	mode     []int // 0 full, 1 partial, 2 lazy
-	silent   []int64
-	dispo    []map[string]int
-	signals  []string
-	base     map[string]uint64
-	txs      [][]byte
-	metas    []txMeta
-	oplog    []string
-	failed   bool
-	curFeeds feedstypes.CurrentFeeds
-	sig      interface{ Write([]byte) (int, error) }
-	nVals    int
-	jailing  bool
+	run         *sim.Run
+	w, w2       *sim.World
+	rng         *sim.Rng
+	caseID      int
+	params      feedstypes.Params
+	qRat        *big.Rat
+	valIdx      map[string]int
+	prices      []map[string]*vp
+	active      []bool
+	bonded      []bool
+	mode        []int // 0 full, 1 partial, 2 lazy
+	silent      []int64
+	dispo       []map[string]int
+	signals     []string
+	base        map[string]uint64
+	txs         [][]byte
+	metas       []txMeta
+	oplog       []string
+	failed      bool
+	curFeeds    feedstypes.CurrentFeeds
+	sig         interface{ Write([]byte) (int, error) }
+	nVals       int
+	jailing     bool
 	absentUntil []int64
-	deleg    []map[int]int64 // user -> validator -> delegated amount (model, approximate)
-	outcomes map[string]int
+	deleg       []map[int]int64 // user -> validator -> delegated amount (model, approximate)
+	outcomes    map[string]int
 }
 
 func (c *chain) log(s string, a ...any) {
@@ -1123,6 +1120,9 @@ func (c *chain) step(dt time.Duration) bool {
 }
 
 func runHistory(run *sim.Run, caseID int) {
+	if run.Violations() >= 20 {
+		return
+	}
 	rng := sim.NewRng(uint64(run.Seed)).Derive(fmt.Sprintf("c06-chain-%d", caseID))
 	nVals := rng.Range(4, 8)
 	nUsers := 3
